@@ -38,6 +38,9 @@ pub struct ExecutionParameters {
     /// Whether `errexit` (exit on error) behavior should be
     /// suppressed in this execution context. Defaults to `false`.
     pub suppress_errexit: bool,
+    /// Verification hook: identifies the pipeline being executed in trace events.
+    #[cfg(brush_verif)]
+    pub verif_pl: u64,
 }
 
 impl ExecutionParameters {
@@ -291,11 +294,19 @@ fn spawn_async_ao_list_in_task<'a, SE: extensions::ShellExtensions>(
         cloned_params.set_fd(openfiles::OpenFiles::STDIN_FD, null);
     }
 
+    #[cfg(brush_verif)]
+    let verif_tok = crate::verif::fresh_id();
+
     let join_handle = tokio::spawn(async move {
+        #[cfg(brush_verif)]
+        let _verif_guard = crate::verif::TaskGuard::new(verif_tok);
         cloned_ao_list
             .execute(&mut cloned_shell, &cloned_params)
             .await
     });
+
+    #[cfg(brush_verif)]
+    crate::verif::set_pending_tok(verif_tok);
 
     shell.jobs_mut().add_as_current(jobs::Job::new(
         [jobs::JobTask::Internal(join_handle)],
@@ -381,9 +392,33 @@ impl Execute for ast::Pipeline {
             params.suppress_errexit = true;
         }
 
+        #[cfg(brush_verif)]
+        {
+            params.verif_pl = crate::verif::fresh_id();
+            if self.seq.len() > 1 {
+                #[allow(clippy::cast_possible_wrap)]
+                crate::verif::event(
+                    "pl_begin",
+                    &[
+                        ("pl", crate::verif::i(params.verif_pl)),
+                        ("n", self.seq.len() as i64),
+                    ],
+                );
+            }
+        }
+
         // Spawn all the processes required for the pipeline, connecting outputs/inputs with pipes
         // as needed.
         let spawn_results = spawn_pipeline_processes(self, shell, &params).await?;
+
+        #[cfg(brush_verif)]
+        if self.seq.len() > 1 {
+            crate::verif::event(
+                "pl_spawned_all",
+                &[("pl", crate::verif::i(params.verif_pl))],
+            );
+            crate::verif::pause("pl_before_wait");
+        }
 
         // Wait for the processes. This also has a side effect of updating pipeline status.
         let mut result =
@@ -573,6 +608,25 @@ async fn spawn_pipeline_processes(
             }
         }
 
+        #[cfg(brush_verif)]
+        if pipeline_len > 1 {
+            let kind = match &spawn_result {
+                ExecutionSpawnResult::Completed(_) => 0,
+                ExecutionSpawnResult::StartedProcess(_) => 1,
+                ExecutionSpawnResult::StartedTask(_) => 2,
+            };
+            #[allow(clippy::cast_possible_wrap)]
+            crate::verif::event(
+                "pl_stage",
+                &[
+                    ("pl", crate::verif::i(params.verif_pl)),
+                    ("i", current_pipeline_index as i64 + 1),
+                    ("kind", kind),
+                ],
+            );
+            crate::verif::pause("pl_after_spawn");
+        }
+
         spawn_results.push_back(spawn_result);
     }
 
@@ -607,6 +661,19 @@ async fn wait_for_pipeline_processes_and_update_status(
 
         match wait_result {
             ExecutionWaitResult::Completed(current_result) => {
+                #[cfg(brush_verif)]
+                if pipeline_len > 1 {
+                    #[allow(clippy::cast_possible_wrap)]
+                    crate::verif::event(
+                        "pl_waited",
+                        &[
+                            ("pl", crate::verif::i(params.verif_pl)),
+                            ("i", index as i64),
+                            ("st", i64::from(u8::from(current_result.exit_code))),
+                        ],
+                    );
+                }
+
                 // A command run in its own subshell cannot make this shell exit, return or
                 // leave a loop; only its status flows back.
                 result = if ran_in_current_shell {
